@@ -232,9 +232,10 @@ impl CoverageFormat2<'_> {
                 }
             })
             .ok()
-            .map(|idx| {
+            .and_then(|idx| {
                 let rec = &self.range_records()[idx];
-                rec.start_coverage_index() + gid.to_u16() - rec.start_glyph_id().to_u16()
+                rec.start_coverage_index()
+                    .checked_add(gid.to_u16() - rec.start_glyph_id().to_u16())
             })
     }
 
